@@ -96,6 +96,7 @@ Cast(v, dt) ==
   IF Kind(dt) = "f" /\ Tag(v) = "i" THEN <<"f", v[2], 1>>
   ELSE IF Kind(dt) = "f" /\ Tag(v) = "none" THEN NaN
   ELSE IF Kind(dt) = "M" /\ Tag(v) = "none" THEN NaT
+  ELSE IF Kind(dt) = "O" /\ Tag(v) = "nat" THEN None       \* datetime64 -> object turns NaT into None (still missing)
   ELSE v
 CastSeq(vs, dt) == [i \in 1..Len(vs) |-> Cast(vs[i], dt)]
 
